@@ -100,6 +100,55 @@ static void raw_request(const MethodRow& anyrow, const std::vector<MethodRow*>& 
   }
 }
 
+// ---- re-entrant dispatch: a handler that, while it runs, causes another request for the same method to be dispatched on the same thread
+// (a relay / callback style service). The running handler's arguments are its own: the nested call must not change them, and every level's
+// Invoke must return what that level's handler returned.
+struct RelayIf : nop::Interface<RelayIf> {
+  NOP_INTERFACE("verif.rpc.Relay");
+  NOP_METHOD(Echo, std::string(const std::string&, int));
+  NOP_METHOD(Sum, std::vector<int>(const std::vector<int>&, int));
+  NOP_INTERFACE_API(Echo, Sum);
+};
+struct RelayNode { Wire out; Client cl{&out}; int id = 0; uint64_t handled = 0; };
+static std::string relay_model(const std::string& msg, int hops) { return hops <= 0 ? msg + "()" : msg + "(" + relay_model(msg + "+", hops - 1) + ")"; }
+static std::vector<int> relay_sum_model(std::vector<int> v, int hops) { if (hops > 0) { std::vector<int> w = v; w.push_back(hops); std::vector<int> r = relay_sum_model(w, hops - 1); v.insert(v.end(), r.begin(), r.end()); } v.push_back(-hops); return v; }
+static void relay_cases() {
+  if (!mine(12) && args().only_type.empty()) return;
+  if (!args().only_type.empty() && args().only_type != "RelayIf") return;
+  auto bindings = nop::BindInterface<RelayNode*>(
+      RelayIf::Echo::Bind([](RelayNode* self, const std::string& msg, int hops) -> std::string {
+        self->handled++;
+        if (hops <= 0) return msg + "()";
+        auto r = RelayIf::Echo::Invoke(&self->cl.sender, msg + "+", hops - 1);
+        return msg + "(" + (r ? r.get() : std::string("<error>")) + ")";          // msg is read after the nested dispatch
+      }),
+      RelayIf::Sum::Bind([](RelayNode* self, const std::vector<int>& v, int hops) -> std::vector<int> {
+        self->handled++;
+        std::vector<int> out;
+        if (hops > 0) { std::vector<int> w = v; w.push_back(hops); auto r = RelayIf::Sum::Invoke(&self->cl.sender, w, hops - 1); out = v; if (r) out.insert(out.end(), r.get().begin(), r.get().end()); }   // v is read after the nested dispatch
+        else out = v;
+        out.push_back(-hops); return out;
+      }));
+  RelayNode a, b; a.id = 1; b.id = 2;
+  Server sv_b(&a.out), sv_a(&b.out);                                    // a.out carries a's calls to b, b.out carries b's calls to a
+  a.out.serve = [&]() { return bindings(&sv_b.receiver, &b); }; b.out.serve = [&]() { return bindings(&sv_a.receiver, &a); };
+  Wire root; Server sv_root(&root); Client cl(&root); root.serve = [&]() { return bindings(&sv_root.receiver, &a); };
+  Rng r = case_rng("RelayIf", 0, 5);
+  for (int i = 0; i < 150; i++) {
+    std::string cd = case_desc("RelayIf", i, "relay"); set_current("%s", cd.c_str());
+    int hops = i % 6; std::string msg(1 + r.below(40), 'm'); for (auto& ch : msg) ch = (char)('a' + r.below(26));
+    auto e = RelayIf::Echo::Invoke(&cl.sender, msg, hops); if (root.pending) root.run_server();
+    rep().count("c14_reentrant_dispatch_calls"); rep().count("c14_reentrant_dispatch_depth_total", (uint64_t)hops); rep().note(hash_combine(hash_str("relay"), hash_combine(hash_str(msg), (uint64_t)hops)), hops > 0);
+    std::string want = relay_model(msg, hops);
+    if (!e || e.get() != want) rep().violation("C14:return-value:re-entrant-dispatch", fmt("Echo(\"%s\", hops=%d) through relaying handlers: Invoke returned %s, the handlers compute \"%s\"", msg.c_str(), hops, e ? ("\"" + e.get() + "\"").c_str() : errname(e.error()), want.c_str()), cd);
+    std::vector<int> v; for (size_t k = 0; k < r.below(5); k++) v.push_back((int)r.below(1000));
+    auto su = RelayIf::Sum::Invoke(&cl.sender, v, hops); if (root.pending) root.run_server();
+    if (!su || su.get() != relay_sum_model(v, hops)) rep().violation("C14:return-value:re-entrant-dispatch", fmt("Sum(vector of %zu, hops=%d) through relaying handlers returned a different vector than the handlers compute", v.size(), hops), cd);
+    for (Wire* w : {&root, &a.out, &b.out}) if (w->req_pos != w->req.size() || w->rep_pos != w->rep.size()) { rep().violation("C14:request-not-consumed", "relay interface out of frame", cd); i = 1000; break; }
+  }
+  clear_current();
+}
+
 // ---- handlers that return a reference into their (decoded) arguments: legal, the reply must carry the referenced value
 struct EchoIf : nop::Interface<EchoIf> {
   NOP_INTERFACE("verif.rpc.Echo");
@@ -142,7 +191,7 @@ int vf::engine_main() {
   std::map<int, std::vector<MethodRow*>> by_iface; for (auto& r : g_rows) by_iface[r.iface].push_back(&r);
   rep().counters["programs_interfaces"] = args().worker == 0 ? by_iface.size() : 0; rep().counters["programs_methods"] = args().worker == 0 ? g_rows.size() : 0;
   int nseq = th ? 400 : 40;
-  echo_cases();
+  echo_cases(); relay_cases();
   for (auto& kv : by_iface) {
     auto& rows = kv.second; const MethodRow& first = *rows[0];
     std::string iname = first.iname;
